@@ -19,6 +19,8 @@ ASSUMPTIONS = [
 ]
 
 DEFAULT_MODULES = ["RProofs.BSet", "RProofs.BSetQuery"]
+FASTEQ = ["RModel.Impl.Cont.toBSetFast_eq", "RModel.Impl.Rep.toBSetFast_eq"]
+FASTEQ_MOD = "RProofs.FastEq"
 FACTS = "RProofs.Facts.Constants"
 F_SERIAL = ["RModel.Facts.serialCookie_spec", "RModel.Facts.serialCookieNoRun_spec", "RModel.Facts.noOffsetThreshold_spec",
             "RModel.Facts.arrayDefaultMaxSize_spec", "RModel.Facts.maxCapacity_spec", "RModel.Facts.bitmap_sizes",
@@ -96,8 +98,8 @@ L1_XFORM = ["RModel.BSet.mem_shift", "RModel.BSet.canon_shift", "RModel.BSet.mem
 
 PROPS = {
     "C01": {"suites": [("alg", 1.0), ("kern", 0.3), ("kernspecial", 1.0), ("kernthresh", 0.5), ("popcnt", 1.0), ("kernl2", 0.5), ("l2rep", 0.5), ("kernmutbin", 0.3), ("l2mut", 0.3)],
-            "theorems": L1_ALGEBRA + F_THRESH + L2_CONT + L2_REP + L2_IBIN + L2_REPIBIN + PINS,
-            "modules": DEFAULT_MODULES + [FACTS, PINS_MOD, "RProofs.ContOps", "RProofs.RepOps", "RProofs.ContMut", "RProofs.RepMut"],
+            "theorems": L1_ALGEBRA + F_THRESH + L2_CONT + L2_REP + L2_IBIN + L2_REPIBIN + PINS + FASTEQ,
+            "modules": DEFAULT_MODULES + [FACTS, PINS_MOD, FASTEQ_MOD, "RProofs.ContOps", "RProofs.RepOps", "RProofs.ContMut", "RProofs.RepMut"],
             "owns": {"and", "or", "xor", "andnot", "iand", "ior", "ixor", "iandnot", "andcard", "orcard", "isect", "eq", "dig",
                      "kern", "popcnt", "l2op", "l2iop"}},
     "C02": {"suites": [("hist", 1.0), ("kernmut", 0.4), ("l2mut", 0.6)], "theorems": L1_MUT + L1_ALGEBRA[:3] + F_THRESH + L2_MUT + L2_REPMUT + PINS,
@@ -137,8 +139,8 @@ PROPS = {
                          "RModel.Impl.detach_no_foreign'", "RModel.Impl.safe_reachable", "RModel.Impl.hdrLocal_run"],
             "owns": None},
     "C09": {"suites": [("hist", 1.0), ("alg", 0.7), ("xform", 0.7), ("ser", 0.5), ("kernwf", 1.0), ("kernthresh", 1.0), ("thresh", 0.5), ("agg", 0.5), ("kernl2", 0.5), ("l2rep", 0.3), ("kernmut", 0.3), ("l2mut", 0.3), ("l2xform", 0.3), ("frozen", 0.3)],
-            "theorems": ["RModel.Impl.wf_implies_validate", "RModel.Impl.validate_implies_wf_of_decoded", "RModel.BSet.canon_ext"] + F_THRESH + L2_CONT[4:8] + L2_REP[5:] + L2_MUT_WF + L2_REPMUT_WF + [L2_XFORM[1], L2_XFORM[3], L2_XFORM[7]] + PINS,
-            "modules": DEFAULT_MODULES + [FACTS, PINS_MOD, "RProofs.Properties.C09", "RProofs.ContOps", "RProofs.RepOps", "RProofs.ContMut", "RProofs.RepMut", "RProofs.RepXform"],
+            "theorems": ["RModel.Impl.wf_implies_validate", "RModel.Impl.validate_implies_wf_of_decoded", "RModel.BSet.canon_ext"] + F_THRESH + L2_CONT[4:8] + L2_REP[5:] + L2_MUT_WF + L2_REPMUT_WF + [L2_XFORM[1], L2_XFORM[3], L2_XFORM[7]] + PINS + FASTEQ,
+            "modules": DEFAULT_MODULES + [FACTS, PINS_MOD, FASTEQ_MOD, "RProofs.Properties.C09", "RProofs.ContOps", "RProofs.RepOps", "RProofs.ContMut", "RProofs.RepMut", "RProofs.RepXform"],
             # a library-written stream read back must validate: `rd` lines whose Go side reports an invalid bitmap are C09's
             "owns_fn": lambda op, mm, suite: op in ("wf", "kernwf", "l2op", "l2mut", "l2iop", "l2off", "l2sflip", "l2fromdense") or (op in ("rd", "fview") and "invalid:" in mm.get("got", ""))
             or (op in AGG_OPS and "valid=no" in mm.get("got", "")),
@@ -174,8 +176,8 @@ PROPS = {
             "owns": {"off", "off32", "sflip", "eq", "dense", "fromdense", "frombitset", "densechk", "dig",
                      "zdense", "zfromdense", "safe", "digall", "zdetach", "zsame", "l2off", "l2sflip", "l2dense", "l2fromdense"}},
     "C17": {"suites": [("r64", 1.0), ("l2r64", 0.6)], "theorems": L1_ALGEBRA + L1_MUT[:5] + L1_QUERY[:9] + L1_NBR[:4] +
-            ["RModel.Facts.r64Highbits_spec", "RModel.Facts.r64Lowbits_spec"] + L2_R64,
-            "modules": DEFAULT_MODULES + ["RProofs.Facts.Bits", "RProofs.Rep64", "RProofs.Rep64Range", "RProofs.Rep64InPlace", "RProofs.Rep64Witness"], "owns": None},
+            ["RModel.Facts.r64Highbits_spec", "RModel.Facts.r64Lowbits_spec"] + L2_R64 + ["RModel.Impl.Rep64.toBSetFast_eq'"],
+            "modules": DEFAULT_MODULES + ["RProofs.Facts.Bits", FASTEQ_MOD, "RProofs.Rep64", "RProofs.Rep64Range", "RProofs.Rep64InPlace", "RProofs.Rep64Witness"], "owns": None},
     "C18": {"suites": [("ser64", 1.0)], "theorems": ["RModel.BSet.canon_ext", "RModel.Facts.r64_cookies_spec",
                                                      "RModel.Impl.decode_encode", "RModel.Impl.prefix_rejected", "RModel.Impl.decode_no_panic"],
             "modules": DEFAULT_MODULES + [FACTS, "RProofs.Properties.C05"], "owns": None},
